@@ -629,3 +629,26 @@ Proof.
     rewrite Ef. apply Dec_from_wire; [apply Dec_app; exact D|].
     eapply Valid_ci; [symmetry; exact R|exact Vl].
 Qed.
+
+(* ------------------------------------------------------------------ *)
+(* whatever from_wire decodes is an absolute valid name whose own uncompressed encoding decodes
+   to it again (decode / re-encode / decode is stable)                   *)
+
+Lemma Dec_absolute msg cur b ls h : Dec msg cur b ls h -> is_absolute ls = true.
+Proof.
+  induction 1 as [cur b H|cur b count l ls hi H Hc Hl El D IH|cur b hi8 lo c ls h H H8 Hlo Ec Hcb D IH].
+  - reflexivity.
+  - destruct ls as [|y ls]; [discriminate|]. exact IH.
+  - exact IH.
+Qed.
+
+Theorem from_wire_reencode msg off n c : Forall (fun x => 0 <= x) msg ->
+  from_wire msg off = Ok (n, c) ->
+  Valid n /\ is_absolute n = true /\
+  from_wire (wire_labels false n) 0 = Ok (n, length (wire_labels false n)).
+Proof.
+  intros NN H. apply from_wire_Dec in H; [|exact NN]. destruct H as (h & D & _ & V).
+  pose proof (Dec_absolute _ _ _ _ _ D) as A.
+  split; [exact V|]. split; [exact A|].
+  destruct (wire_roundtrip n [] [] V A) as [_ R]. cbn [app length] in R. rewrite app_nil_r in R. exact R.
+Qed.
